@@ -19,7 +19,9 @@ RULE = (
     "value.  Compared with the Coq model: compiled._result_columns, the four matching flags, "
     "result.keys(), row._mapping[k] for every string / object key in sight (index, ambiguous, no such "
     "column), and the lookups by the columns of a second, structurally equal statement served from the "
-    "compiled cache (_adapt_to_context).  Small scope: all ordered pairs of a 10-item alphabet x 3 styles. "
+    "compiled cache (_adapt_to_context) - where possible a DIFFERENT statement with the same cache key that selects "
+    "the same expression objects in the opposite order.  Small scope: all ordered pairs of a 10-item alphabet x 3 "
+    "styles.  Oracle-only family: a column next to unary (-col) and cast wrappers of itself / of its namesakes.  "
     "non-trivial = at least two result columns share a name, a key, a table-qualified label or a "
     "truncated label"
 )
@@ -85,7 +87,8 @@ NAMES = [
 ]
 TABLES = ["a", "b", "a_b"]
 DOTTED = ["b.id", "a.x", "q.z.id"]          # aliases for plain text only (sqlite _translate_colname)
-K_COL, K_LABEL, K_ANONLABEL, K_EXPR, K_LABEL_EXPR, K_LITCOL, K_TEXT, K_LITLABEL = range(8)
+K_COL, K_LABEL, K_ANONLABEL, K_EXPR, K_LABEL_EXPR, K_LITCOL, K_TEXT, K_LITLABEL, K_UNARY, K_CAST = range(10)
+UNMODELLED = (K_UNARY, K_CAST)      # oracle-only: unary / cast wrappers are outside the Coq model
 F_SELECT, F_SUBQ, F_CTE, F_UNION, F_TEXTPOS, F_TEXTNAME, F_PLAINTEXT, F_MISMATCH = range(8)
 
 
@@ -134,6 +137,8 @@ def _case(rng, form=None, style=None, ll=None, items=None, tabs=None, kind="rand
             kinds = [K_COL] * 5 + [K_LABEL] * 3 + [K_ANONLABEL, K_EXPR, K_EXPR, K_LABEL_EXPR, K_LITCOL, K_LITLABEL]
             if form == F_SELECT:
                 kinds += [K_TEXT]
+            if form != F_MISMATCH and rng.random() < 0.12:
+                kinds += [K_UNARY] * 4 + [K_CAST] * 4
         elif form in (F_SUBQ, F_CTE):
             kinds = [K_COL] * 5 + [K_LABEL] * 3 + [K_ANONLABEL, K_EXPR, K_EXPR, K_LABEL_EXPR]
         else:
@@ -153,7 +158,10 @@ def _case(rng, form=None, style=None, ll=None, items=None, tabs=None, kind="rand
             aliases.append(rng.randrange(len(NAMES)))
     dotted = [rng.choice([-1, -1, 0, 1, 2]) for _ in items]
     extra = [rng.choice([1, 2]), aliases, rng.randrange(3), dotted, rng.randrange(2)]
-    return {"in": [[ll, style, form, tabs, items, extra], []], "kind": kind}
+    case = {"in": [[ll, style, form, tabs, items, extra], []], "kind": kind}
+    if any(it[0] in UNMODELLED for it in items):
+        case["model"] = False
+    return case
 
 
 def gen_cases(rng, tier):
@@ -174,6 +182,25 @@ def gen_cases(rng, tier):
                 if rng.random() < 0.35:
                     cases.append(_case(rng, rng.choice([F_SUBQ, F_UNION, F_TEXTPOS, F_TEXTNAME]), st, 0,
                                        [list(i), list(j)], tabs, "pairs-forms"))
+    # oracle-only small scope: a column next to unary / cast wrappers of itself and of its namesakes
+    walpha = [[K_COL, 0, 0, 0, 1], [K_COL, 1, 0, 0, 1], [K_UNARY, 0, 0, 0, 1], [K_UNARY, 1, 0, 0, 1],
+              [K_CAST, 0, 0, 0, 1], [K_CAST, 0, 0, 0, 2], [K_CAST, 1, 1, 0, 1], [K_LABEL, 1, 1, 0, 1]]
+    for st in range(3):
+        for i in walpha:
+            for j in walpha:
+                if i[0] in UNMODELLED or j[0] in UNMODELLED:
+                    cases.append(_case(rng, F_SELECT, st, 0, [list(i), list(j)], tabs, "wrappers"))
+        for i in walpha[2:6]:
+            cases.append(_case(rng, F_SELECT, st, 0, [walpha[0], walpha[1], list(i)], tabs, "wrappers"))
+            cases.append(_case(rng, F_UNION, st, 0, [walpha[1], list(i), walpha[0]], tabs, "wrappers"))
+    # the same expression objects selected in the opposite order by a second statement with the same
+    # cache key (expressions that differ only in a bound value)
+    for st in range(3):
+        for t_, c_ in ((0, 0), (1, 1), (2, 0)):
+            e1, e2 = [K_EXPR, t_, c_, 0, 1], [K_EXPR, t_, c_, 0, 2]
+            cases.append(_case(rng, F_SELECT, st, 0, [e1, e2], tabs, "swap"))
+            cases.append(_case(rng, F_SELECT, st, 0, [e1, [K_COL, 1, 0, 0, 1], e2], tabs, "swap"))
+            cases.append(_case(rng, F_SELECT, st, 0, [e1, e2, [K_EXPR, t_, c_, 0, 3]], tabs, "swap"))
     n = 6000 if tier == "thorough" else 1100
     for _ in range(n):
         cases.append(_case(rng))
@@ -322,9 +349,15 @@ def _build(g, tables, sa):
         elif kind == K_TEXT:
             v = 8000 + 10 * len(exprs) + k
             e = sa.text(str(v))
-        else:
+        elif kind == K_LITLABEL:
             v = 9000 + 10 * len(exprs) + k
             e = sa.literal_column(str(v)).label(NAMES[lbl])
+        elif kind == K_UNARY:
+            e, v = -col, -v
+        elif k % 2:
+            e, v = sa.cast(col, sa.Float), float(v)
+        else:
+            e, v = sa.cast(col, sa.String), str(v)
         cache[tkey] = (e, v)
         exprs.append(e)
         vals.append(v)
@@ -446,10 +479,14 @@ def impl(case):
             if form not in (F_TEXTPOS, F_TEXTNAME, F_PLAINTEXT):
                 cpn = first._generate_columns_plus_names(True)
             descs = []
+            modelled = True
             for i, c in enumerate(sel):
                 cls = _cls(c, sa)
                 if cls is None:
-                    return {"skip": "unsupported class %s" % type(c).__name__}
+                    if case.get("model", True):
+                        return {"skip": "unsupported class %s" % type(c).__name__}
+                    modelled = False
+                    break
                 descs.append([
                     cn.obj(c), cn.hashes[hash(c)], cls, 1 if getattr(c, "is_literal", False) else 0,
                     1 if getattr(c, "table", None) is not None else 0,
@@ -488,8 +525,9 @@ def impl(case):
             ]
             flags = [1 if x else 0 for x in struct]
             if r is None:
-                out["mi"] = [mform, style, descs, resolve, desc_in, 1, [], []]
-                out["mo"] = [rcs_out, flags, [1]]
+                if modelled:
+                    out["mi"] = [mform, style, descs, resolve, desc_in, 1, [], []]
+                    out["mo"] = [rcs_out, flags, [1]]
                 out["orc"] = None
                 return out
             meta = r._metadata
@@ -540,10 +578,21 @@ def impl(case):
             allp = probes + oprobes
             looks = [look(row, k) for k in allp]
             # ---- second, structurally equal statement through the cache
-            news, looks2, sel2 = [], [], []
+            news, looks2, sel2, vals2 = [], [], [], vals
             if form != F_PLAINTEXT:
-                r2 = conn.execute(stmt2)
                 from sqlalchemy.engine.interfaces import CacheStats
+
+                # prefer a DIFFERENT statement with the same cache key: the same expression objects in the
+                # opposite order (possible when the expressions differ in bound values only)
+                if form == F_SELECT and len(sel) >= 2 and all(it[0] != K_TEXT for it in items):
+                    styles_ = [sa.LABEL_STYLE_NONE, sa.LABEL_STYLE_TABLENAME_PLUS_COL, sa.LABEL_STYLE_DISAMBIGUATE_ONLY]
+                    frm_ = tables[0].join(tables[1], sa.true()).join(tables[2], sa.true())
+                    sw = sa.select(*sel[::-1]).select_from(frm_).set_label_style(styles_[style])
+                    if any(x is not y for x, y in zip(sel, sel[::-1])) and (
+                        sw._generate_cache_key() == stmt._generate_cache_key()
+                    ):
+                        stmt2, vals2 = sw, (vals[::-1] if vals is not None else None)
+                r2 = conn.execute(stmt2)
 
                 if r2.context.cache_hit is CacheStats.CACHE_HIT:
                     sel2 = list(stmt2._all_selected_columns)
@@ -552,8 +601,9 @@ def impl(case):
                     news = [cn.key(k) for k in sel2]
                 else:
                     r2.close()
-            out["mi"] = [mform, style, descs, resolve, desc_in, 1, [cn.key(k) for k in allp], news]
-            out["mo"] = [rcs_out, flags, [0, keys_out, [l[0] for l in looks], [l[0] for l in looks2]]]
+            if modelled:
+                out["mi"] = [mform, style, descs, resolve, desc_in, 1, [cn.key(k) for k in allp], news]
+                out["mo"] = [rcs_out, flags, [0, keys_out, [l[0] for l in looks], [l[0] for l in looks2]]]
             # ---- oracle data: everything the property statement needs, nothing of the model
             objinfo, loose = [], []
             tq_style = style == 1 and form not in (F_TEXTPOS, F_TEXTNAME, F_PLAINTEXT)
@@ -593,7 +643,15 @@ def impl(case):
                 "vals": vals,
                 "rowvals": [x for x in row._data],
                 "keys": [str(k) for k in meta._keys],
-                "same": [[j for j, y in enumerate(sel) if y is x or hash(y) == hash(x)] for x in sel],
+                # the positions an expression object addresses: where it (or an equal expression) is
+                # selected, and where an unlabelled unary operator over it is selected (SQLAlchemy lets
+                # -col / DISTINCT col be addressed by col)
+                "same": [[j for j, y in enumerate(sel) if _addresses(x, y)] for x in sel],
+                "same2": [[j for j, y in enumerate(sel2) if _addresses(x, y)] for x in sel2],
+                "vals2": vals2,
+                "rowvals2": [x for x in row2._data] if sel2 else [],
+                # position whose rendered name was generated at compile time (anonymous / truncated label)
+                "generated": [str(e.keyname) != str(e.name) for e in rcs_impl],
                 "byobj": [list(looks[len(probes) + next(j for j, x in enumerate(oprobes) if x is c)]) for c in sel],
                 "byobj2": [list(l) for l in looks2],
                 "bystr": [[s, list(l)] for s, l in zip(probes, looks[: len(probes)])],
@@ -607,6 +665,19 @@ def impl(case):
             conn.commit()
 
 
+def _addresses(x, y):
+    from sqlalchemy.sql import elements
+
+    if y is x or hash(y) == hash(x):
+        return True
+    if isinstance(y, elements.UnaryExpression) and not y._wraps_unnamed_column():
+        el = y.element
+        while isinstance(el, (elements.UnaryExpression, elements.Grouping)):
+            el = el.element
+        return el is x or hash(el) == hash(x)
+    return False
+
+
 def model_pair(c, obs):
     if obs.get("skip") or "mi" not in obs:
         return [c["in"][0], [9]], [-998]
@@ -614,7 +685,10 @@ def model_pair(c, obs):
 
 
 def oracle(c, obs):
-    """C11 stated directly on what the implementation returned (markers are distinct per expression)"""
+    """C11 stated directly on what the implementation returned (markers are distinct per expression): every
+    way of addressing a column - Column / label / expression object, string name, key - returns the value at
+    the position the statement's own column list assigns to that address, or raises when the address is
+    ambiguous or absent.  Nothing here looks at the keymap."""
     if obs is None or obs.get("skip") or not obs.get("orc"):
         return None
     o = obs["orc"]
@@ -624,52 +698,99 @@ def oracle(c, obs):
     n = len(vals)
     form = o["form"]
     tag = " [mode=%s%s]" % (o["mode"], " dupes-check-skipped" if o["gap"] else "")
-    for where, looks in (("", o["byobj"]), (" (second statement, compiled cache)", o["byobj2"])):
+    gen = o.get("generated") or []
+    viol = []
+    second = (" (second statement, compiled cache)", o["byobj2"], o.get("vals2"), o.get("same2") or [])
+    if second[2] is None or list(second[2]) != list(o.get("rowvals2") or []):
+        second = None
+    for part in ((("", o["byobj"], vals, o["same"])), second):
+        if part is None:
+            continue
+        where, looks, pv, same = part
         for i, (idx, v) in enumerate(looks):
             if form == F_TEXTNAME:
                 # matching by name: the object stands for the SQL column(s) carrying one of its names
                 if idx >= 0:
                     allowed = [vals[j] for j in range(n) if o["dnames"][j] in o["loose"][i]]
                     if v not in allowed:
-                        return "lookup by the column object %d%s returned %r, the value of a column none of whose names it has%s" % (i, where, v, tag)
+                        viol.append("lookup by the column object %d%s returned %r, the value of a column none of whose names it has%s" % (i, where, v, tag))
                 continue
-            if i >= n:
+            if i >= len(pv) or i >= len(same):
                 break
             if idx >= 0:
-                if v != vals[i]:
-                    return "lookup by the column object at position %d%s returned %r, the value of that expression is %r%s" % (
-                        i, where, v, vals[i], tag)
+                if v != pv[i]:
+                    viol.append("lookup by the column object at position %d%s returned %r, the value of that expression is %r%s" % (
+                        i, where, v, pv[i], tag))
             elif idx == -1:
-                if len(o["same"][i]) < 2 and o["mode"] == "positional":
-                    return "lookup by the column object at position %d%s raised 'ambiguous' but the expression is selected once%s" % (i, where, tag)
-            elif o["mode"] in ("positional", "textual") and len(o["same"][i]) < 2:
-                return "lookup by the column object at position %d%s raised NoSuchColumnError%s" % (i, where, tag)
+                if len(same[i]) < 2 and o["mode"] == "positional":
+                    viol.append("lookup by the column object at position %d%s raised 'ambiguous' but the expression is selected once%s" % (i, where, tag))
+            elif o["mode"] in ("positional", "textual") and len(same[i]) < 2:
+                viol.append("lookup by the column object at position %d%s raised NoSuchColumnError%s" % (i, where, tag))
     keys = o["keys"]
     for s, (idx, v) in o["bystr"]:
         pos = [i for i, k in enumerate(keys) if k == s]
+        g_ = " generated-name" if any(i < len(gen) and gen[i] for i in pos) else ""
         if len(pos) == 1:
             if idx >= 0 and v != vals[pos[0]]:
-                return "string key %r names result column %d only, lookup returned %r instead of %r%s" % (s, pos[0], v, vals[pos[0]], tag)
+                viol.append("string key %r names result column %d only, lookup returned %r instead of %r%s%s" % (s, pos[0], v, vals[pos[0]], g_, tag))
         elif len(pos) >= 2:
             if idx >= 0 and len({vals[i] for i in pos}) > 1:
-                return "string key %r names result columns %s, lookup returned %r instead of raising%s" % (s, pos, v, tag)
+                viol.append("string key %r names result columns %s, lookup returned %r instead of raising%s%s" % (s, pos, v, g_, tag))
         elif idx >= 0 and n == len(o["sec"]):
             N = [i for i in range(n) if s in o["sec"][i]]
             if N:
                 if v not in [vals[i] for i in N]:
-                    return "string key %r is the name/key of result column(s) %s only, lookup returned %r (column %d)%s" % (s, N, v, idx, tag)
-                if len({vals[i] for i in N}) > 1:
-                    return "string key %r is the name/key of result columns %s, lookup returned %r instead of raising%s" % (s, N, v, tag)
+                    viol.append("string key %r is the name/key of result column(s) %s only, lookup returned %r (column %d)%s" % (s, N, v, idx, tag))
+                elif len({vals[i] for i in N}) > 1:
+                    viol.append("string key %r is the name/key of result columns %s, lookup returned %r instead of raising%s" % (s, N, v, tag))
+    for v_ in viol:
+        if match_finding(c, v_) is None:
+            return v_             # a violation that no known finding explains comes first
+    return viol[0] if viol else None
+
+
+def _natural_name(g, it):
+    """the name an item contributes to the de-duplication of _generate_columns_plus_names"""
+    tabs = g[3]
+    if it[0] in (K_LABEL, K_LABEL_EXPR, K_LITLABEL):
+        return NAMES[it[3]]
+    if it[0] in (K_COL, K_CAST):
+        return NAMES[tabs[it[1]][it[2]][0]]
     return None
 
 
 def match_finding(c, what):
+    g = c["in"][0]
+    m = re.match(r"lookup by the column object at position (\d+)(?: \(second statement, compiled cache\))? raised NoSuchColumnError", what)
+    if m:
+        # a cast placed after a different expression of the same natural name is taken for a repeat
+        i, items, style = int(m.group(1)), g[4], g[1]
+        if style == 2 and g[2] in (F_SELECT, F_UNION) and i < len(items) and items[i][0] == K_CAST:
+            nm_ = _natural_name(g, items[i])
+            if any(list(items[j]) != list(items[i]) and _natural_name(g, items[j]) == nm_ for j in range(i)):
+                return "C11-wrapped-column-taken-for-repeat"
+        return None
     if "dupes-check-skipped]" not in what:
         return None
+    m = re.match(r"lookup by the column object at position (\d+)(?: \(second statement, compiled cache\))? returned (-?\d+), "
+                 r"the value of that expression is (-?\d+) \[mode=positional dupes-check-skipped\]", what)
+    if m:
+        # the scan did not run and an unlabelled unary operator over the same column is selected as well:
+        # the Column object is a key of both records, the later one wins
+        i, got, own = int(m.group(1)), int(m.group(2)), int(m.group(3))
+        items = g[4]
+        if g[2] in (F_SELECT, F_UNION) and i < len(items) and items[i][0] == K_COL and got == -own and any(
+            it[0] == K_UNARY and it[1:3] == items[i][1:3] for it in items
+        ):
+            return "C11-unary-shares-column-object"
+        return None
     if "[mode=positional " in what:
-        # with positional matching only STRING keys are affected (c11_lookup_by_object covers every
-        # object that a single column carries, on either path)
-        return "C11-dupes-check-skipped-positional" if what.startswith("string key") else None
+        # with positional matching only STRING keys are affected (c11_lookup_by_object covers every object
+        # that a single column carries, on either path), and a rendered name that is unique in keys() and
+        # was written by the user (not generated at compile time) always wins
+        if what.startswith("string key") and ("is the name/key of" in what or " generated-name" in what):
+            return "C11-dupes-check-skipped-positional"
+        return None
     if "[mode=none " in what:
         return "C11-plain-text-duplicate-names"
     return "C11-dupes-check-skipped-count-heuristic"
